@@ -74,6 +74,8 @@ Section Inv.
   Hypothesis conv_ok : forall a w, conv (akey a w) (f (akey a (negb w))) = f (akey a w).
   (* the dtype memo never removes an entry (extracted fact: Gen/S_threads.memo_no_deletion) *)
   Hypothesis no_del : memo_clear_bound cfg = None.
+  (* results handed to the caller are private buffers (extracted fact: Gen/S_threads.todense_result_fresh) *)
+  Hypothesis fresh : todense_fresh cfg = true.
 
   Notation step_thread := (step_thread cfg f conv).
   Notation step_at := (step_at cfg f conv).
@@ -120,6 +122,7 @@ Section Inv.
     | PaConvSet a w sub v | PaSet a w sub v => sub_ok w sub /\ v = f (akey a w)
     | PmGet k => alookup k (memo sh) <> None
     | PmSet k v => v = f k
+    | PdWrite _ view => view = false
     | _ => True
     end.
 
@@ -371,6 +374,10 @@ Section Inv.
       apply ret_ok; auto. left; cbn. rewrite Hp; reflexivity.
     - (* PpCompute *)
       cbn; (split; [|split]); auto using ext_refl. apply ret_ok; auto. left; reflexivity.
+    - (* PdDense *)
+      cbn; (split; [|split]); auto using ext_refl. apply goto_ok; auto. cbn. rewrite fresh; reflexivity.
+    - (* PdWrite *)
+      subst view. cbn; (split; [|split]); auto using ext_refl. apply ret_ok; auto. left; reflexivity.
   Qed.
 
   (* ---------------------------------------------------------------- any schedule *)
@@ -431,22 +438,21 @@ Section Inv.
   Qed.
 
   (* ---------------------------------------------------------------- operands *)
-  Lemma step_thread_operands sh t : operands (fst (step_thread sh t)) = operands sh.
+  Lemma step_at_operands i st : state_ok st -> operands (fst (step_at i st)) = operands (fst st).
   Proof.
-    clear no_del conv_ok. unfold step_thread, memo_evict. destruct (pcs t); cbn;
-      repeat match goal with |- context [match ?x with _ => _ end] => destruct x; cbn end; reflexivity.
+    intros [Hs Ht]. unfold step_at. destruct (nth_error (snd st) i) as [t|] eqn:E; auto.
+    pose proof (step_ok (fst st) t Hs (Forall_nth_error _ _ _ _ Ht E)) as [_ [_ [_ [_ [_ H]]]]].
+    destruct (step_thread (fst st) t); cbn in *; auto.
   Qed.
 
-  Lemma step_at_operands i st : operands (fst (step_at i st)) = operands (fst st).
+  Lemma run_operands_ok sched st : state_ok st -> operands (fst (run sched st)) = operands (fst st).
   Proof.
-    unfold step_at. destruct (nth_error (snd st) i) as [t|]; auto.
-    pose proof (step_thread_operands (fst st) t). destruct (step_thread (fst st) t); cbn in *; auto.
+    unfold run. revert st; induction sched; cbn; intros st H; auto.
+    rewrite IHsched by (apply step_at_ok; auto). apply step_at_operands; auto.
   Qed.
 
-  Lemma run_operands sched st : operands (fst (run sched st)) = operands (fst st).
-  Proof.
-    unfold run. revert st; induction sched; cbn; intros; auto. rewrite IHsched. apply step_at_operands.
-  Qed.
+  Lemma run_operands sched ops progs : operands (fst (run sched (init ops progs))) = ops.
+  Proof. rewrite run_operands_ok by apply init_ok. reflexivity. Qed.
 
   (* ---------------------------------------------------------------- coarse runs are runs *)
   Lemma run_app a b st : run (a ++ b) st = run b (run a st).
@@ -494,6 +500,7 @@ Section Inv.
     | PaSub a => Some (CAttr a true)
     | PmHas k | PmGet k | PmCompute k | PmSet k _ => Some (CMemo k)
     | PpCompute k => Some (CPure k)
+    | PdDense k | PdWrite k _ => Some (CDenseWrite k)
     end.
 
   Definition prog_of (t : thread) : list call :=
@@ -564,7 +571,7 @@ Lemma race_fine cfg f conv s :
 Proof.
   intros H.
   exists [[CCache s 0 11]; [CCache s 0 12]], [0; 0; 0; 0; 1; 1; 1; 1; 1; 1; 1; 0]%nat, (CCache s 0 11).
-  destruct cfg as [a b n v m]; destruct s; cbn in H; subst; vm_compute; auto.
+  destruct cfg as [a b n v fr m]; destruct s; cbn in H; subst; vm_compute; auto.
 Qed.
 
 (* for the source as it is: the realistic witness at CPython 3.12's switching granularity *)
@@ -593,7 +600,7 @@ Lemma source_verdict :
 Proof.
   destruct (all_snapshot src_config) eqn:E.
   - intros f conv Hc ops progs sched c r H.
-    eapply (snapshot_sound src_config f conv Hc eq_refl sched ops progs c r); [exact E | exact H].
+    eapply (snapshot_sound src_config f conv Hc eq_refl eq_refl sched ops progs c r); [exact E | exact H].
   - intros f conv. eexists _, _, _. apply d13_witness_raises. exact E.
 Qed.
 
@@ -602,19 +609,19 @@ Qed.
 Lemma source_schedule_independent : schedule_independent src_config.
 Proof.
   intros f conv Hc ops progs sched c r H.
-  eapply (snapshot_sound src_config f conv Hc eq_refl sched ops progs c r); [reflexivity | exact H].
+  eapply (snapshot_sound src_config f conv Hc eq_refl eq_refl sched ops progs c r); [reflexivity | exact H].
 Qed.
 
 Lemma fixed_verdict : schedule_independent fixed_config.
 Proof.
   intros f conv Hc ops progs sched c r H.
-  eapply (snapshot_sound fixed_config f conv Hc eq_refl sched ops progs c r); [reflexivity | exact H].
+  eapply (snapshot_sound fixed_config f conv Hc eq_refl eq_refl sched ops progs c r); [reflexivity | exact H].
 Qed.
 
 (* the generated shapes are the ones the model transcribes *)
 Lemma src_shapes_modelled :
   attr_memo_three_stage = true /\ memo_check_then_set = true /\ memo_no_deletion = true /\
-  memo_clear_bound src_config = None /\ (1 <= maxlen src_config)%nat.
+  memo_clear_bound src_config = None /\ todense_fresh src_config = true /\ (1 <= maxlen src_config)%nat.
 Proof. repeat split; vm_compute; auto. Qed.
 
 (* ---------------------------------------------------------------- non-vacuity *)
@@ -648,7 +655,7 @@ Proof. vm_compute. auto. Qed.
 
 (* the variant the code had before the repair, on the witness schedule: the hypotheses of
    cache_race_refuted are satisfiable and the race is the realistic one *)
-Definition direct_config : config := mkConfig false false (maxlen src_config) (csc_via_csr src_config) None.
+Definition direct_config : config := mkConfig false false (maxlen src_config) (csc_via_csr src_config) true None.
 Example race_nonvacuous :
   let st := run_coarse direct_config ex_f ex_conv d13_sched (init [] (d13_threads STranspose)) in
   snap direct_config STranspose = false /\ all_finished st = true /\
@@ -666,7 +673,7 @@ Proof.
   intros H.
   exists [[CMemo 1; CMemo 2; CMemo 1]; [CMemo 3]],
          [0; 0; 0; 0; 0; 0; 0; 0; 0; 0; 1; 1; 1; 0]%nat, (CMemo 1).
-  destruct cfg as [a b n v m]; cbn in H; subst; vm_compute; auto.
+  destruct cfg as [a b n v fr m]; cbn in H; subst; vm_compute; auto.
 Qed.
 
 (* ---------------------------------------------------------------- termination: every call returns *)
@@ -720,6 +727,8 @@ Section Termination.
     | PmSet _ _ => 2
     | PmGet _ => 1
     | PpCompute _ => 1
+    | PdDense _ => 2
+    | PdWrite _ _ => 1
     end%nat.
 
   Definition K : nat := (2 * M + 21)%nat.
@@ -796,6 +805,8 @@ Section Termination.
       unfold memo_evict. destruct (memo_clear_bound cfg); auto. destruct (Nat.leb n (length (memo sh))); auto.
     - cbn; repeat split; auto; intros _; lia.
     - cbn; repeat split; auto; intros _; lia.
+    - cbn; repeat split; auto; intros _; lia.
+    - destruct view; cbn; repeat split; auto; intros _; lia.
   Qed.
 
   Notation drain := (drain cfg f conv).
@@ -948,3 +959,20 @@ Proof.
   pose proof (drain_finishes cfg f conv sched ops progs) as Hf.
   rewrite E in *. rewrite <- run_app in *. apply finished_outputs. exact Hf.
 Qed.
+
+(* a todense that may return a VIEW of the operand's storage: a caller's in-place write to its own result
+   changes the shared operand (and with it the value of every later call) *)
+Lemma view_write_reaches_operands cfg f conv :
+  todense_fresh cfg = false ->
+  exists progs sched, operands (fst (run cfg f conv sched (init [7] progs))) <> [7].
+Proof.
+  intros H. exists [[CDenseWrite 1]], [0; 0; 0]%nat.
+  destruct cfg as [a b n v fr m]; cbn in H; subst; vm_compute. intros E; inversion E.
+Qed.
+
+Example private_results_nonvacuous :
+  let st := run src_config ex_f ex_conv [0; 1; 0; 1; 0; 1; 1; 1]%nat
+              (init [7; 8] [[CDenseWrite 1]; [CPure 2; CDenseWrite 1]]) in
+  all_finished st = true /\ operands (fst st) = [7; 8] /\
+  outputs st = [[(CDenseWrite 1, Ok 8)]; [(CPure 2, Ok 15); (CDenseWrite 1, Ok 8)]].
+Proof. vm_compute. auto. Qed.
